@@ -32,6 +32,7 @@ func checkC03(p *Prog, r *Report) {
 	r.rule("C03.P5", "rmt_wnd is stored only by the constructor and, in Input, from the header's wnd under pktType == IKCP_PACKET_REGULAR", 2)
 	r.rule("C03.P6", "every emitted segment's wnd comes from wnd_unused() (= C04.W3)", 2)
 	r.rule("C03.P9", "with congestion control on, the sender can always resume: a clamp of cwnd to another quantity stores a value >= 1 (so an advertised window of 0 cannot zero it), and if the constructor leaves cwnd below 1 every congestion-controlled flush ends with cwnd >= 1", 2)
+	r.rule("C03.P10", "transfer resumes: the room a reader makes is used — after Recv has taken segments every path runs the loop that promotes parked (already acknowledged) segments from rcv_buf, and that loop is entered whenever rcv_buf holds something (= C02.A11)", 1)
 	r.rule("C03.P8", "no data is lost under back-pressure: a segment that Input acknowledges is stored unless it is outside the window or a duplicate (= C02.A1b)", 1)
 	r.rule("C03.P7", "duplicates of already delivered segments are re-acknowledged: ack_push is controlled by the upper window edge only", 1)
 
@@ -389,6 +390,7 @@ func checkC03(p *Prog, r *Report) {
 	// ---- P7
 	checkAckEveryPush(p, r, "C03.P7")
 	checkAckedIsAccepted(p, r, "C03.P8")
+	checkPromotionInRecv(p, r, "C03.P10")
 	checkCwndNeverStuck(p, r, "C03.P9")
 }
 
